@@ -166,6 +166,24 @@ let () =
       string_of_int (int_of_n (final_status (List.map (fun c -> n_of_int (Char.code c - 48)) (List.init (String.length ev) (String.get ev))) (nw = "1")))
     | [nw] -> string_of_int (int_of_n (final_status [] (nw = "1"))) | _ -> "ERR")
 
+let () =
+  reg "outqhist" (fun toks ->
+    (* the driver refuses G beyond 128 live buffers and W/F on missing indices exactly like the model's upd on short lists *)
+    let q = List.fold_left (fun q tok ->
+      match tok.[0] with
+      | 'G' -> step q Get
+      | 'W' -> (match String.split_on_char ',' (String.sub tok 1 (String.length tok - 1)) with
+                | [i; h] -> let cur = (match List.nth_opt q.bufs (int_of_string i) with Some b -> int_of_nat (length b.odata) | None -> 0) in
+                  let bs = bytes_of_hex h in
+                  let room = 64 - cur in
+                  let bs = List.filteri (fun k _ -> k < room) bs in
+                  step q (Write (nat_of_int (int_of_string i), bs))
+                | _ -> q)
+      | 'F' -> step q (Finish (nat_of_int (int_of_string (String.sub tok 1 (String.length tok - 1)))))
+      | 'R' -> step q (Read (nat_of_int (min 256 (int_of_string (String.sub tok 1 (String.length tok - 1))))))
+      | _ -> q) outq0 toks in
+    Printf.sprintf "%s %d 1" (hex_of_bytes q.delivered) (List.length q.bufs))
+
 (* ---- main loop (keep last) ---- *)
 let () =
   try
